@@ -817,6 +817,11 @@ func (st *c24run) body(dir string) {
 		simrt.Sleep(step)
 		if until := inflightUntil(); until > simrt.SimNow() {
 			simrt.Sleep(time.Duration(until - simrt.SimNow()))
+			// the piece has only just arrived: give its receiver time to
+			// assemble, verify and apply the frame before judging idleness
+			// (a thorough run once ended between the local WAL's shed and the
+			// ingest apply of the last entry and reported it as lost)
+			simrt.Sleep(step)
 		}
 		cur := progress()
 		if cur == prev && drained() {
